@@ -2,6 +2,7 @@ package resolvers
 
 import (
 	"context"
+	"sort"
 
 	"github.com/MichaelMure/git-bug/api/auth"
 	"github.com/MichaelMure/git-bug/api/graphql/connections"
@@ -104,6 +105,10 @@ func (repoResolver) AllIdentities(_ context.Context, obj *models.Repository, aft
 
 	// Simply pass a []string with the ids to the pagination algorithm
 	source := obj.Repo.Identities().AllIds()
+
+	// AllIds walks a map, in a different order each time: sort the ids so that the
+	// offset cursors of one request still designate the same position in the next one.
+	sort.Slice(source, func(i, j int) bool { return source[i] < source[j] })
 
 	// The edger create a custom edge holding just the id
 	edger := func(id entity.Id, offset int) connections.Edge {
